@@ -36,6 +36,7 @@ type Spec struct {
 	AnyOf          []*Spec
 	AllOf          []*Spec
 	Twice          []string // keywords stated twice for one property by two allOf branches (filled by MergeAllOf)
+	ReqAlso        []string // a branch WITH properties whose `required` also names (first, before its own) properties declared by sibling branches (by label)
 	ReqOnly        []string // a constraint-only branch: `required` naming properties (by label) declared in sibling branches
 	ConcreteTitle  string   // with Title: a concrete title
 	DefsOuterFirst bool     // root only: definitions are visited outermost first (a referring definition before the one it refers to)
@@ -46,6 +47,7 @@ type Spec struct {
 	refStr         *absint.Str
 	ConcreteDef    string // with Ref: the definition has this concrete name
 	NoType         bool   // the node states no "type" (an object with properties only)
+	RefSibling     string // a keyword written NEXT TO the $ref on the referring node: "type" (the target's own type) or "description"
 	IntBounds      bool   // the numeric bounds are integers (fact on their atoms)
 	DefSameAs      string // with Ref: the definition has the same NAME as the (earlier built) definition with this label (possibly in another file)
 	DefLabel       string // label under which this definition's name can be reused
@@ -130,6 +132,7 @@ func (s *Spec) clone(memo map[*Spec]*Spec) *Spec {
 		c.AllOf = append(c.AllOf, a.clone(memo))
 	}
 	c.ReqOnly = append([]string{}, s.ReqOnly...)
+	c.ReqAlso = append([]string{}, s.ReqAlso...)
 	return &c
 }
 
@@ -193,6 +196,9 @@ func (s *Spec) String() string {
 		}
 		b.WriteString(")")
 	}
+	if len(s.ReqAlso) > 0 {
+		b.WriteString(" also-requires(" + strings.Join(s.ReqAlso, ",") + ")")
+	}
 	if len(s.ReqOnly) > 0 {
 		b.WriteString(" required-only(" + strings.Join(s.ReqOnly, ",") + ")")
 	}
@@ -223,6 +229,7 @@ func (s *Spec) String() string {
 type builder struct {
 	defNames map[string]*absint.Atom
 	curFile  string
+	inFile   string // set while a node is built that will live in ANOTHER file (a definition placed there through RefFile): its own fragment-only references are definitions of that file
 	fileKeys map[string][]gen.V
 	fileVals map[string][]gen.V
 	preOrder bool
@@ -281,6 +288,11 @@ func (b *builder) build(s *Spec, label string) gen.V {
 	if s.Ref != "" && s.built == b && s.refStr != nil {
 		// the same definition referenced again: only another referring node
 		return g.Node(map[string]gen.V{"Ref": *s.refStr})
+	}
+	if s.Ref != "" && s.RefFile != "" {
+		saved := b.inFile
+		b.inFile = s.RefFile
+		defer func() { b.inFile = saved }()
 	}
 	f := map[string]gen.V{}
 	slot := -1
@@ -442,6 +454,23 @@ func (b *builder) build(s *Spec, label string) gen.V {
 		if s.ReqNoProp {
 			req = append(req, absint.HoleStr(b.atom(s, "RawStr", "required-without-property", true)))
 		}
+		if len(s.ReqAlso) > 0 {
+			var first []absint.Str
+			for _, l := range s.ReqAlso {
+				if b.names[l] == nil {
+					// the property is declared by a LATER branch: introduce its name now
+					a := g.M.NewAtom("RawStr", "name of property "+l)
+					a.NonEmpty = true
+					b.names[l] = a
+					if b.pre == nil {
+						b.pre = map[string]bool{}
+					}
+					b.pre[l] = true
+				}
+				first = append(first, absint.HoleStr(b.names[l]))
+			}
+			req = append(first, req...)
+		}
 		if len(keys) > 0 {
 			f["Properties"] = g.Map(keys, vals)
 		}
@@ -592,6 +621,15 @@ func (b *builder) build(s *Spec, label string) gen.V {
 			s.built, s.refStr = b, &rs
 			return g.Node(map[string]gen.V{"Ref": rs})
 		}
+		if b.inFile != "" && slot < 0 {
+			// a fragment-only reference written inside a definition that lives in another file: the target is a definition of THAT file
+			s.DefName = b.defName(s, label)
+			b.fileKeys[b.inFile] = append(b.fileKeys[b.inFile], s.defStr())
+			b.fileVals[b.inFile] = append(b.fileVals[b.inFile], node)
+			rs := absint.Cat(absint.Lit("#/$defs/"), s.defStr())
+			s.built, s.refStr = b, &rs
+			return g.Node(map[string]gen.V{"Ref": rs})
+		}
 		if slot >= 0 {
 			b.defVals[slot] = node
 		} else {
@@ -605,7 +643,16 @@ func (b *builder) build(s *Spec, label string) gen.V {
 		}
 		rs := absint.Cat(absint.Lit(prefix), s.defStr())
 		s.built, s.refStr = b, &rs
-		return g.Node(map[string]gen.V{"Ref": rs})
+		rf := map[string]gen.V{"Ref": rs}
+		switch s.RefSibling {
+		case "type":
+			if tl := b.typeList(s); tl != nil {
+				rf["Type"] = tl
+			}
+		case "description":
+			rf["Description"] = absint.Lit("a referring node with a description of its own")
+		}
+		return g.Node(rf)
 	}
 	return node
 }
